@@ -42,6 +42,8 @@ def dispatch (fam : String) : Option (List String → String → Option Res) :=
   | "settle" => some runSettle
   | "lifecycle" => some runLifecycle
   | "ledgerslash" => some runLedger
+  | "ledgerhist" => some runLedger
+  | "apphash" => some runAppHash
   | "ledgersettle" => some runLedger
   | "claim" => some runClaim
   | "oracle" => some runOracle
